@@ -145,7 +145,7 @@ func Run(c Case) (Outcome, []cty.Value, error) {
 var (
 	valTypes  = gen.TypeOpts{Depth: 2, Dynamic: true}
 	collTypes = gen.TypeOpts{Depth: 1, Dynamic: false}
-	concrete  = gen.ValOpts{Null: true, MaxElems: 3}
+	concrete  = gen.ValOpts{Null: true, MaxElems: 3, Long: 20}
 )
 
 // Concrete draws a well-typed, wholly-known, unmarked operand tuple for op
@@ -231,7 +231,7 @@ func drawConcrete(t *rapid.T, op string) Case {
 		k := rapid.SampledFrom([]string{spec.KList, spec.KMap, spec.KSet, spec.KTuple}).Draw(t, "kind")
 		var ty spec.T
 		if k == spec.KTuple {
-			n := rapid.IntRange(0, 3).Draw(t, "n")
+			n := tupleLen(t)
 			es := make([]spec.T, n)
 			for i := range es {
 				es[i] = gen.Type(collTypes).Draw(t, "et")
@@ -257,12 +257,20 @@ func drawConcrete(t *rapid.T, op string) Case {
 	return c
 }
 
+// tupleLen draws a tuple length: 0..3, one time in twelve a long one.
+func tupleLen(t *rapid.T) int {
+	if rapid.IntRange(0, 11).Draw(t, "longtuple") == 6 {
+		return rapid.SampledFrom(gen.LongSizes[:10]).Draw(t, "longn")
+	}
+	return rapid.IntRange(0, 3).Draw(t, "n")
+}
+
 func drawIndexable(t *rapid.T) spec.V {
 	k := rapid.SampledFrom([]string{spec.KList, spec.KMap, spec.KTuple, spec.KList}).Draw(t, "kind")
 	var ty spec.T
 	switch k {
 	case spec.KTuple:
-		n := rapid.IntRange(0, 3).Draw(t, "n")
+		n := tupleLen(t)
 		es := make([]spec.T, n)
 		for i := range es {
 			es[i] = gen.Type(gen.TypeOpts{Depth: 1, Dynamic: true}).Draw(t, "et")
